@@ -825,7 +825,7 @@ def mixed(extra = None):
 def observe():
     return "|".join([str(lit()), str(nested()), str(litd()), str(mixed()), str(LIST_G), str(NEST_G), str(DICT_G),
                      str(FILT_G), str(SLICE_G), str(NUMS_G), str(FILT_G + ["obs"]), str(SLICE_G + ["obs"]), str(NUMS_G + [0]),
-                     str(glist()), str(gnest()), str(gdict()), str(CONFIG.TOOLCHAIN), str(CONFIG.BUILD_FILE_NAMES), str(CONFIG.TCLIST), str(dfltd()), str(dfltl())])
+                     str(glist()), str(gnest()), str(gdict()), str(CONFIG.TOOLCHAIN), str(CONFIG.BUILD_FILE_NAMES), str(CONFIG.TCLIST), str(dfltd()), str(dfltl()), str(CONFIG.get("NEWKEY", "unset")), str(CONFIG.get("NEWKEY2", "unset"))])
 '''
 
 # mutation / re-ordering idioms; each is a few statements using a fresh variable prefix
@@ -885,6 +885,19 @@ C17_IDIOMS = [
     ('x = reversed(CONFIG.BUILD_FILE_NAMES)',),
     ('x = CONFIG.BUILD_FILE_NAMES + ["own"]', 'x[0] = "MUT_%s"'),
     ('CONFIG.TOOLCHAIN = {"CC": "MUT_%s"}',),
+    # augmented assignment, loops over nested values, copies, new configuration keys
+    ('x = LIST_G', 'x += ["MUT_%s"]'),
+    ('x = nested()', 'x += [["MUT_%s"]]'),
+    ('for v in NEST_G:\n    v[0] = "MUT_%s"',),
+    ('for v in nested():\n    v[0] = "MUT_%s"',),
+    ('x = DICT_G.copy()', 'y = x["k"]', 'y[0] = "MUT_%s"'),
+    ('x = CONFIG.TOOLCHAIN.copy()', 'x["OPT"] = "MUT_%s"'),
+    ('DICT_G.setdefault("zz", "MUT_%s")',),
+    ('x = [LIST_G]', 'y = x[0]', 'y[0] = "MUT_%s"'),
+    ('x = {"own": NEST_G}', 'y = x["own"]', 'z = y[0]', 'z[0] = "MUT_%s"'),
+    ('CONFIG.setdefault("NEWKEY", "MUT_%s")',),
+    ('CONFIG["NEWKEY2"] = "MUT_%s"',),
+    ('CONFIG.setdefault("NEWKEY", ["MUT_%s"])', 'x = CONFIG.NEWKEY', 'x[0] = "again"'),
     # default argument values of the build_defs' functions
     ('x = dfltd()', 'x["a"] = "MUT_%s"'),
     ('x = dfltd()', 'y = x["l"]', 'y[0] = "MUT_%s"'),
